@@ -358,6 +358,33 @@ var All = []Prog{
 		b := p.Get().(*int)
 		return fmt.Sprint(*b)
 	}, []string{"7", "0"}},
+	{"ctx-afterfunc-runs-after-cancel", func() string {
+		ctx, cancel := context.WithCancel(context.Background())
+		ran := make(chan string, 1)
+		context.AfterFunc(ctx, func() { ran <- "ran:" + fmt.Sprint(ctx.Err()) })
+		cancel()
+		return <-ran
+	}, []string{"ran:context canceled"}},
+	{"ctx-afterfunc-stopped-before-cancel", func() string {
+		ctx, cancel := context.WithCancel(context.Background())
+		var n atomic.Int32
+		stop := context.AfterFunc(ctx, func() { n.Add(1) })
+		first := stop()
+		cancel()
+		second := stop()
+		return fmt.Sprint(first, second, n.Load())
+	}, []string{"true false 0"}},
+	{"ctx-afterfunc-stop-races-with-cancel", func() string {
+		ctx, cancel := context.WithCancel(context.Background())
+		ran := make(chan struct{}, 1)
+		stop := context.AfterFunc(ctx, func() { ran <- struct{}{} })
+		go cancel()
+		if stop() {
+			return "stopped"
+		}
+		<-ran
+		return "ran"
+	}, []string{"stopped", "ran"}},
 	{"pool-without-new", func() string {
 		var p sync.Pool
 		return fmt.Sprint(p.Get())
